@@ -3585,15 +3585,17 @@ class MaybeAlignPartitions(Expr):
         # This can be expensive when something that has expensive division
         # calculation is in the Expression
         dfs = self.args
-        if (
-            len(dfs) == 1
-            or all(
-                dfs[0].divisions == df.divisions and df.known_divisions for df in dfs
-            )
-            or len(self.divisions) == 2
-            and max(map(lambda x: len(x.divisions), dfs)) == 2
+        if len(dfs) == 1 or all(
+            dfs[0].divisions == df.divisions and df.known_divisions for df in dfs
         ):
             return self._expr_cls(*self.operands)
+        elif (
+            len(self.divisions) == 2
+            and max(map(lambda x: len(x.divisions), dfs)) == 2
+        ):
+            # Every operand has a single partition: there is nothing to move,
+            # but Blockwise needs its dependencies to agree on the divisions
+            return self._expr_cls(*_set_common_divisions(self.operands, dfs, self.divisions))
         elif self.divisions[0] is None:
             # We have to shuffle
             npartitions = max(df.npartitions for df in dfs)
@@ -3625,6 +3627,22 @@ class MaybeAlignPartitions(Expr):
     @functools.cached_property
     def _meta(self):
         return self._expr_cls(*self.operands)._meta
+
+
+def _set_common_divisions(operands, dfs, divisions):
+    """Declare ``divisions`` for those ``operands`` that are among ``dfs``"""
+    if divisions[0] is None:
+        # unknown divisions: single partitions already agree on (None, None)
+        return list(operands)
+    names = {df._name for df in dfs}
+    return [
+        (
+            SetDivisions(op, tuple(divisions))
+            if isinstance(op, Expr) and op._name in names
+            else op
+        )
+        for op in operands
+    ]
 
 
 def _are_dtypes_shuffle_compatible(dtypes):
@@ -3767,15 +3785,20 @@ class OpAlignPartitions(MaybeAlignPartitions):
         # This can be expensive when something that has expensive division
         # calculation is in the Expression
         dfs = self.args
-        if (
-            len(dfs) == 1
-            or all(
-                dfs[0].divisions == df.divisions and df.known_divisions for df in dfs
-            )
-            or len(self.divisions) == 2
-            and max(map(lambda x: len(x.divisions), dfs)) == 2
+        if len(dfs) == 1 or all(
+            dfs[0].divisions == df.divisions and df.known_divisions for df in dfs
         ):
             return self._op(self.frame, self.op, self.other, *self.operands[3:])
+        elif (
+            len(self.divisions) == 2
+            and max(map(lambda x: len(x.divisions), dfs)) == 2
+        ):
+            # Every operand has a single partition: there is nothing to move,
+            # but Blockwise needs its dependencies to agree on the divisions
+            frame, other = _set_common_divisions(
+                [self.frame, self.other], dfs, self.divisions
+            )
+            return self._op(frame, self.op, other, *self.operands[3:])
         elif self.divisions[0] is None:
             # Unknown divisions: partitions that merely have the same position
             # are not aligned with each other, we have to shuffle on the index
